@@ -97,6 +97,9 @@ class FakeTransport : public Transport {
   result_t openInternal() override { return RESULT_OK; }
 
   // answer data (DD.. of the slave part) by master "PB SB ID.." key
+  // traffic of other participants that ebusd only listens to (already escaped wire bytes)
+  void feed(const vector<uint8_t>& wire) { for (uint8_t b : wire) m_rx.push_back(b); }
+  bool pending() const { return !m_rx.empty(); }
   std::map<vector<uint8_t>, vector<uint8_t>> m_answers;
   vector<vector<uint8_t>> m_written;   // every complete master telegram seen (unescaped, without CRC)
   size_t m_writtenBytes = 0;           // every byte ebusd asked the transport to write
@@ -149,6 +152,7 @@ namespace ebusd {
 struct VerifAccess {
   static result_t send(DirectProtocolHandler* h, unsigned int* to, symbol_t* sym, struct timespec* t) { return h->handleSend(to, sym, t); }
   static result_t recv(DirectProtocolHandler* h, unsigned int to, bool sending, symbol_t sym, struct timespec* t) { return h->handleReceive(to, sending, sym, t); }
+  static bool ready(DirectProtocolHandler* h) { return h->m_state == bs_ready; }
   static bool finished(ProtocolHandler* h, BusRequest* r) { return h->m_finishedRequests.remove(r, false); }
   static UserList* users(MainLoop* m) { return &m->m_userList; }
 };
@@ -174,7 +178,10 @@ class StepHandler : public DirectProtocolHandler {
     result_t r = ProtocolHandler::addRequest(request, false);
     if (r != RESULT_OK || !wait) return r;
     for (int i = 0; i < 2000; i++) {
-      if (VerifAccess::finished(this, request)) return RESULT_OK;
+      if (VerifAccess::finished(this, request)) {
+        for (int j = 0; j < 4 && !VerifAccess::ready(this); j++) step();  // let the handler release the bus (final SYN) within this command
+        return RESULT_OK;
+      }
       step();
     }
     fprintf(stderr, "HARNESS: request did not finish\n"); exit(2);
@@ -355,6 +362,30 @@ static Obs runCmd(World* W, Client* telnet, const JV& c) {
   else if (op == "rc") resp = telnet->send("read -f -c " + s->circuit + " " + s->name + "\n");
   else if (op == "rp") resp = telnet->send("read -p 2 -c " + s->circuit + " " + s->name + "\n");
   else if (op == "rh") resp = telnet->send("read -f -h " + hexcmd + "\n");
+  else if (op == "rhn") resp = telnet->send("read -h " + hexcmd + "\n");
+  else if (op == "rhm") resp = telnet->send("read -m 0 -h " + hexcmd + "\n");
+  else if (op == "rcn") resp = telnet->send("read -c " + s->circuit + " " + s->name + "\n");
+  else if (op == "rm") resp = telnet->send("read -m 0 " + s->name + "\n");
+  else if (op == "xr") {  // another connection: authenticate (if a user is given), then read from the bus
+    Client other(W);
+    if (cu) other.send(string("auth ") + userName(cu) + " " + secretOf(cs) + "\n");
+    resp = other.send("read -f -c " + s->circuit + " " + s->name + "\n");
+  } else if (op == "bus") {  // master 10 reads the message from slave 08; ebusd receives both parts passively
+    MasterSymbolString m; m.push_back(0x10); m.push_back(0x08); m.push_back(s->id[0]); m.push_back(s->id[1]); m.push_back(2); m.push_back(s->id[2]); m.push_back(s->id[3]);
+    SlaveSymbolString sl; sl.push_back(1); sl.push_back(s->value);
+    vector<uint8_t> wire;
+    auto esc = [&wire](uint8_t b) { if (b == ESC) { wire.push_back(ESC); wire.push_back(0); } else if (b == SYN) { wire.push_back(ESC); wire.push_back(1); } else wire.push_back(b); };
+    for (size_t i = 0; i < m.size(); i++) esc(m[i]);
+    esc(m.calcCrc()); wire.push_back(ACK);
+    for (size_t i = 0; i < sl.size(); i++) esc(sl[i]);
+    esc(sl.calcCrc()); wire.push_back(ACK); wire.push_back(SYN);
+    W->proto->step();  // an idle SYN first
+    W->tr->feed(wire);
+    for (int i = 0; i < 64 && W->tr->pending(); i++) W->proto->step();
+    W->proto->step();
+    if (s->msg->getLastUpdateTime() == 0) { fprintf(stderr, "HARNESS: passive reception did not update the message\n"); exit(2); }
+    resp = "bus";
+  }
   else if (op == "rhc") resp = telnet->send("read -f -c " + s->circuit + " -h " + hexcmd + "\n");
   else if (op == "w") resp = telnet->send("write -c " + s->circuit + " " + s->name + " 7\n");
   else if (op == "wh") resp = telnet->send("write -h " + hexcmd + "\n");
@@ -365,7 +396,7 @@ static Obs runCmd(World* W, Client* telnet, const JV& c) {
     else if (op == "gp") q = "poll=3";
     else if (op == "gw") q = "write";
     else if (op == "gx") q = "exact";
-    else if (op == "gd") q = "def";
+    else if (op == "gm") q = "maxage=300";
     if (cu) q += string(q.empty() ? "" : "&") + "user=" + userName(cu);
     if (cs) q += string(q.empty() ? "" : "&") + "secret=" + secretOf(cs);
     Client h(W, true);
@@ -388,6 +419,8 @@ static Obs runCmd(World* W, Client* telnet, const JV& c) {
       size_t f = t.find(pat, cpos);
       if (f != string::npos && f < cend) o.val.push_back(static_cast<int>(k + 1));
     }
+  } else if (op == "bus") {
+    o.rc = "bus";
   } else if (op == "auth" || op == "auth1") {
     o.rc = t == "done" ? "authok" : t == "ERR: invalid user name or secret" ? "authbad" : t.compare(0, 6, "usage:") == 0 ? "usage" : "other";
   } else {
@@ -397,9 +430,9 @@ static Obs runCmd(World* W, Client* telnet, const JV& c) {
     else if (t.compare(0, 4, "ERR:") == 0) o.rc = "err";
     else {
       o.rc = "ok";
-      if (op == "rh" || op == "rhc") {  // slave data as hex: NN DD
+      if (op == "rh" || op == "rhc" || op == "rhn" || op == "rhm") {  // slave data as hex: NN DD
         if (t.size() == 4) { int v = slotOfValue(W, strtol(t.substr(2).c_str(), nullptr, 16)); if (v > 0) o.val.push_back(v); else o.rc = "other"; } else o.rc = "other";
-      } else if (op[0] == 'r') {
+      } else if (op[0] == 'r' || op == "xr") {
         char* e; long v = strtol(t.c_str(), &e, 10);
         int sv = *e ? -1 : slotOfValue(W, v);
         if (sv > 0) o.val.push_back(sv); else o.rc = "other";
